@@ -144,6 +144,9 @@ func (P) Generate(g *core.Gen) {
 	for i := g.N(3, 30); i > 0; i-- {
 		genFlushBoundary(g.R, emit)
 	}
+	for i := g.N(4, 20); i > 0; i-- {
+		genPruneCrash(g.R, emit)
+	}
 	// every per-key life cycle across leveldb / cache / pending (both tiers)
 	genLifecycle(g.R, emit)
 }
